@@ -53,13 +53,13 @@ CleanB(p) ==
 
 \* carousel sessions for late join (three full cycles)
 CarP == (1..Len(Shapes)) \X (1..Len(Schemes)) \X BOOLEAN \X BOOLEAN \X { <<"delay", 400>>, <<"interval", 900>> } \X {"full", "obt"} \X {1, 2}
-        \X {0, 2, 3}
+        \X {0, 2, 3} \X {300, 2500}
 CarB(p) ==
   LET sh == Shapes[p[1]] sc == Schemes[p[2]] fti == p[3] icenc == p[4] car == p[5] md == p[6] nobj == p[7] ce == p[8]
       E == IF ce = 0 THEN sh[2] ELSE sh[2] * 4 IN
   [ fam |-> "car",
     cfg |-> [scheme |-> 0, E |-> BigE, B |-> 8, interleave |-> 2, queues |-> << <<0, 2>> >>, mode |-> md,
-             fdt_car |-> <<"delay", 300>>],
+             fdt_car |-> <<"delay", p[9]>>],
     objs |-> (<< [clen |-> sh[1], oti |-> Oti(sc, E, sh[3], IF sc = 0 THEN 0 ELSE 1, fti), car |-> car,
                   cenc |-> ce, icenc |-> icenc, md5 |-> (nobj = 1)] >>
               \o IF nobj = 2 THEN << [clen |-> 7, oti |-> Oti(0, 4, 2, 0, fti), car |-> car] >> ELSE <<>>),
@@ -84,8 +84,59 @@ MemB(p) ==
     objs |-> [o \in 1..p[3] |-> [clen |-> 40 + 8 * o, oti |-> Oti(p[2], 8, 3, IF p[2] = 0 THEN 0 ELSE 1, p[1])]],
     ops |-> FlattenSeq([o \in 1..p[3] |-> << <<"add", o>>, <<"publish">> >>]) \o << <<"drain">> >> ]
 
-SessParams == CASE Family = "small" -> SmallP [] Family = "mem" -> MemP [] Family = "clean" -> CleanP [] Family = "car" -> CarP [] Family = "exp" -> ExpP
-SessBuild(p) == CASE Family = "small" -> SmallB(p) [] Family = "mem" -> MemB(p) [] Family = "clean" -> CleanB(p) [] Family = "car" -> CarB(p) [] Family = "exp" -> ExpB(p)
+\* objects cut into more source blocks than the receiver pre-allocates (2048): the block window of the receiver moves
+WideShapes == << <<2049, 1, 1>>, <<2500, 1, 1>>, <<4101, 1, 2>>, <<6200, 1, 1>> >>
+WideP == (1..Len(WideShapes)) \X {0, 129, 1} \X BOOLEAN \X {1, 4}
+WideB(p) ==
+  LET sh == WideShapes[p[1]]
+      \* Raptor: blocks of one symbol only (see known finding on Raptor blocks of 2 and 3 symbols)
+      sc == IF p[2] = 1 /\ sh[3] # 1 THEN 129 ELSE p[2] IN
+  [ fam |-> "wide",
+    cfg |-> [scheme |-> 0, E |-> BigE, B |-> 8, interleave |-> p[4], queues |-> << <<0, 1>> >>, mode |-> "full"],
+    objs |-> << [clen |-> sh[1], oti |-> Oti(sc, sh[2], sh[3], IF sc = 0 THEN 0 ELSE 1, p[3]), md5 |-> TRUE] >>,
+    drain_cap |-> 30000,
+    ops |-> << <<"add", 1>>, <<"publish">>, <<"drain">> >> ]
+
+SessParams == CASE Family = "wide" -> WideP [] Family = "small" -> SmallP [] Family = "mem" -> MemP [] Family = "clean" -> CleanP [] Family = "car" -> CarP [] Family = "exp" -> ExpP
+SessBuild(p) == CASE Family = "wide" -> WideB(p) [] Family = "small" -> SmallB(p) [] Family = "mem" -> MemB(p) [] Family = "clean" -> CleanB(p) [] Family = "car" -> CarB(p) [] Family = "exp" -> ExpB(p)
+
+-----------------------------------------------------------------------------
+(* extreme but well-formed packets, built with the wire-format specification (family c04x):                   *)
+(* every packet is a syntactically valid ALC packet with an EXT_FTI whose values sit on the limits of the     *)
+(* field widths and of the FEC schemes (RFC 5053 K <= 8192, RFC 6330 K' <= 56403, RFC 5510 n <= 255, ...)     *)
+W == INSTANCE Wire
+XSchemes == <<0, 1, 5, 6, 129>>
+XB == <<1, 2, 255, 256, 8192, 8193, 56403, 56404, 65535>>
+XE == <<1, 4, 64>>
+XZNA == << <<1, 1, 1>>, <<0, 1, 1>>, <<1, 0, 1>>, <<1, 1, 0>>, <<255, 1, 4>>, <<1, 255, 4>>, <<2, 2, 2>> >>
+\* transfer length classes: one full block, one byte more, one byte, empty, 2^32-1, 2^40-1, 2^48-1
+XL(B, E) == << W!MulSmall(W!FromNat(B, 4), E), W!Add(W!MulSmall(W!FromNat(B, 4), E), <<1>>), <<1>>, <<0>>,
+               <<255, 255, 255, 255>>, <<255, 255, 255, 255, 255>>, <<255, 255, 255, 255, 255, 255>> >>
+\* (sbn, esi) classes relative to B
+XPid(B) == << <<0, 0>>, <<0, B - 1>>, <<0, B>>, <<0, 65535>>, <<1, 0>>, <<255, 0>>, <<65535, 1>> >>
+XFti(sc, L, E, B, z, mx) ==
+  CASE sc = 0   -> W!FtiNoCode(L, E, W!FromNat(B, 4))
+    [] sc = 129 -> W!FtiSmallBlock(L, 0, E, B, IF mx = 0 THEN B ELSE IF mx = 1 THEN B - 1 ELSE 65535)
+    [] sc = 5   -> W!FtiRS28(L, E, B % 256, IF mx = 0 THEN B % 256 ELSE IF mx = 1 THEN (B - 1) % 256 ELSE 255)
+    [] sc = 6   -> W!FtiRaptorQ(L, E, z[1], z[2], z[3])
+    [] sc = 1   -> W!FtiRaptor(L, E, z[1], z[2], z[3])
+XPacket(sc, toi, L, E, B, z, mx, pid) ==
+  LET sbn == IF sc = 6 THEN pid[1] % 256 ELSE pid[1]
+      esi == IF sc = 5 THEN pid[2] % 256 ELSE pid[2]
+      f == [c |-> 0, psi |-> 0, s |-> 1, o |-> 1, h |-> 0, a |-> 0, b |-> 0, cp |-> sc, cci |-> <<0, 0, 0, 0>>,
+            tsi |-> W!FromNat(1, 4), toi |-> W!FromNat(toi, 4), exts |-> << XFti(sc, L, E, B, z, mx) >>,
+            pid |-> W!EncPid(sc, IF sc = 129 THEN W!FromNat(sbn, 4) ELSE sbn, esi, B, 8), payload |-> [i \in 1..E |-> 90]]
+  IN W!EncAlc(f)
+\* all packets for one (scheme, B, E): distinct TOIs from 5000 on
+XSet(sc, B, E) ==
+  LET zs == IF sc \in {1, 6} THEN XZNA ELSE IF sc \in {5, 129} THEN << <<0>>, <<1>>, <<2>> >> ELSE << <<0>> >>
+      Ls == XL(B, E)
+      ps == XPid(B)
+      nz == Len(zs) nl == Len(Ls) np == Len(ps)
+  IN [n \in 1..(nz * nl * np) |->
+        LET zi == ((n - 1) \div (nl * np)) + 1  li == (((n - 1) \div np) % nl) + 1  pi == ((n - 1) % np) + 1
+        IN XPacket(sc, 5000 + n, Ls[li], E, B,
+                   IF sc \in {1, 6} THEN zs[zi] ELSE <<1, 1, 1>>, IF sc \in {5, 129} THEN zs[zi][1] ELSE 0, ps[pi])]
 
 -----------------------------------------------------------------------------
 (* channel schedules over recorded sessions *)
@@ -115,7 +166,9 @@ ChanK(s) ==
     [] Family = "clean"   -> BOOLEAN \X BOOLEAN
     [] Family = "c04"     -> (0..NP(s)) \X ({<<"fuzzhdr", i>> : i \in 1..NP(s)} \cup {<<"xmlfdt", v>> : v \in 0..29}
                                            \cup {<<"mutseq", x>> : x \in 1..6} \cup {<<"garbage", 1>>})
-    [] Family = "mem"     -> {"nofdt", "missing", "fdtfirst", "all"} \X {1, 3, 10} \X {100, 400, 2000} \X {0, 1, 2} \X {0, -1} \X {0, -1}
+    [] Family = "c04x"    -> (1..Len(XSchemes)) \X (1..Len(XB)) \X (1..Len(XE))
+    [] Family = "mem"     -> ({"nofdt", "missing", "fdtfirst", "all"} \X {1, 3, 10} \X {100, 400, 2000} \X {0, 1, 2} \X {0, -1} \X {0, -1})
+                             \cup ({"refresh"} \X {1} \X {400, 2000} \X {0, 2} \X {80} \X {-1})
     [] Family = "expiry"  -> {-946080000, -86400, -5, 0, 5, 86400, 946080000} \X {0, 1, 2, 3} \X BOOLEAN \X BOOLEAN \X BOOLEAN
 
 ChanBuild(s, k) ==
@@ -137,6 +190,8 @@ ChanBuild(s, k) ==
                                         \o (IF k[5] = "fwd" /\ k[4] < n /\ k[4] % 2 = 0 THEN << <<"d">> >> ELSE <<>>)]
     [] Family = "clean"   -> [sid |-> sid, fam |-> "clean", rcfg |-> [once |-> k[1]], w |-> [md5 |-> k[2]], sched |-> << <<"seq", 1, n>> >>]
     [] Family = "c04"     -> [sid |-> sid, fam |-> "c04", prefix |-> k[1], adv |-> k[2]]
+    [] Family = "c04x"    -> [sid |-> sid, fam |-> "c04x", prefix |-> 0, what |-> <<XSchemes[k[1]], XB[k[2]], XE[k[3]]>>,
+                              adv |-> <<"rawset", XSet(XSchemes[k[1]], XB[k[2]], XE[k[3]])>>]
     [] Family = "mem"     ->
          LET keep(i) == LET q == Sess[s].pkts[i] IN
                         CASE k[1] = "nofdt"    -> q.k = "obj"
@@ -146,19 +201,31 @@ ChanBuild(s, k) ==
              once == FlattenSeq([i \in 1..n |-> IF keep(i) THEN << <<"p", i>> >> ELSE <<>>])
              RECURSIVE Rep(_)
              Rep(r) == IF r = 0 THEN <<>> ELSE once \o Rep(r - 1)
+             \* "refresh": objects stalled on a missing symbol, then - half an object time-out later - a new complete FDT
+             \* instance, then - another half later - the cleanup: the objects have been silent for more than the time-out
+             firstFdt == Sess[s].pkts[CHOOSE i \in 1..n : Sess[s].pkts[i].k = "fdt"].id
+             lastFdt  == Sess[s].pkts[CHOOSE i \in 1..n : Sess[s].pkts[i].k = "fdt" /\ \A j \in 1..n : Sess[s].pkts[j].k = "fdt" => j <= i].id
+             fdtPk(id) == FlattenSeq([i \in 1..n |-> IF Sess[s].pkts[i].k = "fdt" /\ Sess[s].pkts[i].id = id THEN << <<"p", i>> >> ELSE <<>>])
+             stalled == FlattenSeq([i \in 1..n |-> IF Sess[s].pkts[i].k = "obj" /\ Sess[s].pkts[i].esi # 0 THEN << <<"p", i>> >> ELSE <<>>])
          IN [sid |-> sid, fam |-> "mem", pattern |-> k[1],
              rcfg |-> [max_cache |-> k[3], max_err |-> k[4], obj_to |-> k[5], sess_to |-> k[6], once |-> FALSE],
-             sched |-> Rep(k[2]) \o << <<"sleep", 5>>, <<"c">> >>]
+             sched |-> IF k[1] = "refresh"
+                       THEN fdtPk(firstFdt) \o stalled \o << <<"sleep", 50>> >> \o fdtPk(lastFdt) \o << <<"sleep", 50>>, <<"c">> >>
+                       ELSE Rep(k[2]) \o << <<"sleep", 5>>, <<"c">> >>]
     [] Family = "expiry"  ->
          \* receiver clock skew k[1]; transit delay class k[2] relative to the FDT duration D: 0, D-3, D+3, 2D;
          \* k[3] expiry check; k[4] object packets before the FDT; k[5] cleanup in between
          LET D == Sess[s].cfg.fdt_dur
              delay == IF k[2] = 0 THEN 0 ELSE IF k[2] = 1 THEN D - 3 ELSE IF k[2] = 2 THEN D + 3 ELSE 2 * D
          IN [sid |-> sid, fam |-> "expiry", rcfg |-> [expiry |-> k[3]], skew |-> k[1], delay |-> delay,
-             sched |-> << <<"skew", k[1]>>, <<"delay", delay>> >>
-                       \o (IF k[4] THEN << <<"seq", 2, n>>, <<"p", 1>> >> ELSE << <<"p", 1>> >>)
+             \* the first part arrives without transit delay, the second part `delay` seconds late: with the FDT
+             \* first, the instance is received while valid and the object arrives before / after its expiry;
+             \* with the object first, the instance itself arrives late
+             sched |-> << <<"skew", k[1]>>, <<"delay", 0>> >>
+                       \o (IF k[4] THEN << <<"seq", 2, n>> >> ELSE << <<"p", 1>> >>)
+                       \o << <<"delay", delay>> >>
                        \o (IF k[5] THEN << <<"c">> >> ELSE <<>>)
-                       \o (IF k[4] THEN <<>> ELSE << <<"seq", 2, n>> >>)]
+                       \o (IF k[4] THEN << <<"p", 1>> >> ELSE << <<"seq", 2, n>> >>)]
 
 -----------------------------------------------------------------------------
 VARIABLES a, k
